@@ -1,8 +1,9 @@
 From Coq Require Import ExtrOcamlBasic.
-From ChibiV Require Import Common.ExtractBase C09.CSem Gen.C09_Luint C09.Ast C09.Simplify C09.Sem2 C09.Kinded.
+From ChibiV Require Import Common.ExtractBase C09.CSem Gen.C09_Luint C09.Ast C09.Simplify C09.Sem2 C09.Kinded C09.Sem3 C09.Simplify2 C09.Kinded2 C09.Rest.
 Extraction "model.ml" ext_base
   lsint_lt_0 sexp_lsint_fits_sint sexp_luint_fits_uint luint_from_lsint lsint_from_luint lsint_from_sint
   luint_from_uint lsint_to_sint luint_to_uint lsint_to_sint_hi luint_to_uint_hi lsint_negate luint_eq luint_lt
   luint_shl luint_shr luint_add luint_add_uint luint_sub luint_mul_uint lsint_mul_sint luint_div luint_div_uint
   luint_and luint_is_fixnum lsint_is_fixnum
-  sexp_simplify simplify run wf run2 ksexp_simplify ksimplify erase dyn0 fold_eval.
+  sexp_simplify simplify run wf run2 ksexp_simplify ksimplify erase dyn0 fold_eval
+  run3 eval3 simpN sexp_simplifyN ksimpN ksexp_simplifyN ksize size usedp rest_unused rest_unused_old.
